@@ -112,8 +112,40 @@ pub fn time_edges() -> Vec<i128> {
     ])
 }
 
+/// Times of day at 2^k (and multiples of 2^32) microseconds, 2^k milliseconds and 2^k seconds,
+/// each with its +-1 us neighbours: where a narrowing cast of the time-of-day part gives out.
+pub fn binary_times_of_day() -> Vec<i128> {
+    let mut v = vec![];
+    for unit in [1i128, 1000, US_PER_SEC] {
+        for k in 0..=36u32 {
+            let b = (1i128 << k) * unit;
+            for d in [-1i128, 0, 1] {
+                if time_in_range(b + d) {
+                    v.push(b + d);
+                }
+            }
+        }
+    }
+    for j in 1..=20i128 {
+        for d in [-1i128, 0, 1] {
+            let x = j * (1i128 << 32) + d;
+            if time_in_range(x) {
+                v.push(x);
+            }
+        }
+    }
+    for j in 1..=40i128 {
+        let x = j * (1i128 << 31);
+        if time_in_range(x) {
+            v.push(x);
+        }
+    }
+    dedup(v)
+}
+
 pub fn time_pool(seed: u64, nrandom: usize) -> Vec<i128> {
     let mut v = time_edges();
+    v.extend(binary_times_of_day());
     let mut r = SplitMix(seed ^ 0x71E);
     for _ in 0..nrandom {
         v.push(r.range_i128(0, US_PER_DAY - 1));
